@@ -470,6 +470,11 @@ func entries() []entry {
 			k = r.Intn(len(ds))
 			inspect("sonic.UnmarshalString/"+destNames[k], in, sonic.UnmarshalString(string(in), ds[k]()))
 			if len(in) > 2000 {
+				// the generic (interface{}) decoder has its own value stack: exactly-at-the-limit nesting with later members
+				inspect("sonic.Unmarshal/iface", in, sonic.Unmarshal(in, new(interface{})))
+				inspect("sonic.Unmarshal/map[string]iface", in, sonic.Unmarshal(in, new(map[string]interface{})))
+				inspect("sonic.Unmarshal/[]iface", in, sonic.Unmarshal(in, new([]interface{})))
+				inspect("sonic.Unmarshal/Rec", in, sonic.Unmarshal(in, new(Rec)))
 				// regression (fixed 3291dcd): the stack-overflow error of a typed destination must have an intact header
 				inspect("sonic.Unmarshal/Tree", in, sonic.Unmarshal(in, new(Tree)))
 			}
@@ -592,6 +597,68 @@ func entries() []entry {
 			inspect("ast.Searcher.GetByPath", in, err)
 			if err == nil {
 				touchNode("ast.Searcher/node", in, &nd)
+			}
+		}},
+		{"ast.ConcurrentRead", func(in []byte, r *rng.R) {
+			// call sequences on a NewRawConcurrentRead node, under a watchdog: a leaked lock shows as a call that never returns
+			ops := make([]int, 2+r.Intn(6))
+			for i := range ops {
+				ops[i] = r.Intn(9)
+			}
+			paths := [][]interface{}{randPath(r), randPath(r)}
+			done := make(chan string, 1)
+			var trace []string
+			go func() {
+				defer func() {
+					if x := recover(); x != nil {
+						done <- fmt.Sprintf("panic: %v", x)
+					}
+				}()
+				nd := ast.NewRawConcurrentRead(string(in))
+				for _, op := range ops {
+					switch op {
+					case 0:
+						trace = append(trace, "Raw")
+						_, _ = nd.Raw()
+					case 1:
+						trace = append(trace, "Get")
+						_ = nd.Get("a")
+					case 2:
+						trace = append(trace, "Index")
+						_ = nd.Index(0)
+					case 3:
+						trace = append(trace, "Interface")
+						_, _ = nd.Interface()
+					case 4:
+						trace = append(trace, "Len")
+						_, _ = nd.Len()
+					case 5:
+						trace = append(trace, "GetByPath")
+						x := nd.GetByPath(paths[0]...)
+						_, _ = x.Raw()
+					case 6:
+						trace = append(trace, "MarshalJSON")
+						_, _ = nd.MarshalJSON()
+					case 7:
+						trace = append(trace, "String/Int64/Bool")
+						_, _ = nd.String()
+						_, _ = nd.Int64()
+						_, _ = nd.Bool()
+					default:
+						trace = append(trace, "Load+Check")
+						_ = nd.Load()
+						_ = nd.Check()
+					}
+				}
+				done <- ""
+			}()
+			select {
+			case msg := <-done:
+				if msg != "" {
+					fail("ast.ConcurrentRead", "panic", in, msg+" after "+strings.Join(trace, ","), 0, len(in), 0, "")
+				}
+			case <-time.After(4 * time.Second):
+				fail("ast.ConcurrentRead", "hang", in, "a call on a NewRawConcurrentRead node did not return within 4 s; sequence so far: "+strings.Join(trace, ","), 0, len(in), 0, "")
 			}
 		}},
 		{"ast.Parser", func(in []byte, r *rng.R) {
@@ -731,6 +798,14 @@ func nest(shape string, d int, closed bool) []byte {
 		op, cl = `{"l":[{"a":`, "}]}"
 	case "mixed":
 		op, cl = `[{"a":`, "}]"
+	case "sib": // every level has an empty sibling container first
+		op, cl = `[[],{},`, "]"
+	case "sibobj":
+		op, cl = `{"e":{},"f":[],"a":`, "}"
+	case "objtail": // a later member after the deep value at every level
+		op, cl = `{"a":`, `,"z":[1]}`
+	case "arrtail":
+		op, cl = `[`, `,{"z":1},2]`
 	}
 	n := d
 	if shape == "mixed" || shape == "objl" {
@@ -742,6 +817,8 @@ func nest(shape string, d int, closed bool) []byte {
 	}
 	if shape != "arr" {
 		b.WriteString("1")
+	} else if false {
+		b.WriteString("")
 	}
 	if closed {
 		for i := 0; i < n; i++ {
@@ -834,7 +911,7 @@ func gens() []gen {
 		}},
 		{"depth-limit", func(r *rng.R) []byte {
 			d := []int{4094, 4095, 4096, 4097, 4098, 2048, 65, 8193}[r.Intn(8)]
-			sh := []string{"arr", "obj", "mixed", "objl"}[r.Intn(4)]
+			sh := []string{"arr", "obj", "mixed", "objl", "objtail", "arrtail", "sib", "sibobj"}[r.Intn(8)]
 			return nest(sh, d, r.Chance(3, 4))
 		}},
 	}
@@ -1015,6 +1092,24 @@ func runFuzz() {
 					rep.PerEntry[e.name]++
 					guard(e.name, in, func() { e.run(in, r) })
 				}
+			}
+		}
+	}
+	// nesting at exactly the limits of the three depth-limited machines (native FSM, generated decoder value stack, encoder),
+	// with and without members after the deep value
+	for _, sh := range []string{"arr", "obj", "objtail", "arrtail", "mixed", "sib"} {
+		for _, d := range []int{4095, 4096, 4097} {
+			in := nest(sh, d, true)
+			r := root.Fork(uint64(d) + uint64(len(sh)))
+			rep.PerGen["limit-sweep"]++
+			for _, e := range es {
+				if e.name == "encode" || e.name == "stream.Decode" {
+					continue
+				}
+				writeProgress(pf, e.name, "limit-sweep:"+sh, in)
+				rep.Evaluations++
+				rep.PerEntry[e.name]++
+				guard(e.name, in, func() { e.run(in, r) })
 			}
 		}
 	}
@@ -1249,7 +1344,7 @@ func (c deepCase) String() string { return fmt.Sprintf("%s:%s:%d", c.Entry, c.Sh
 
 func deepInput(c deepCase) []byte {
 	switch c.Shape {
-	case "arr", "obj", "mixed":
+	case "arr", "obj", "mixed", "sib", "sibobj", "objtail", "arrtail":
 		return nest(c.Shape, c.Depth, true)
 	case "arr-open":
 		return nest("arr", c.Depth, false)
@@ -1414,12 +1509,19 @@ func runDeep() {
 		// the unbounded Go recursion: with the goroutine stack limit lowered to 16 MiB the same overflow that needs 1e7
 		// levels under the default 1 GB limit (thorough tier) happens within seconds
 		cases = append(cases, deepCase{"ast-preorder", "arr", 400000, 16 << 20}, deepCase{"ast-loads", "arr-open", 150000, 16 << 20},
+			deepCase{"ast-preorder", "sib", 400000, 16 << 20}, deepCase{"ast-preorder", "sibobj", 400000, 16 << 20},
+			deepCase{"ast-loads", "sib", 100000, 16 << 20}, deepCase{"ast-loadall", "sib", 400000, 16 << 20},
+			deepCase{"ast-interface", "sibobj", 400000, 16 << 20}, deepCase{"unmarshal-iface", "sib", 400000, 16 << 20},
+			deepCase{"unmarshal-iface", "objtail", 100000, 0}, deepCase{"unmarshal-rec", "objtail", 100000, 0},
 			deepCase{"unmarshal-iface", "arr", 400000, 16 << 20}, deepCase{"ast-marshal", "arr", 400000, 16 << 20})
 		cases = append(cases, deepCase{"marshal-deep-slice", "-", 1000000, 0}, deepCase{"marshal-deep-ptr", "-", 1000000, 0})
 	} else {
 		for _, e := range docEntries {
-			for _, sh := range []string{"arr", "obj", "mixed", "arr-open", "obj-open"} {
+			for _, sh := range []string{"arr", "obj", "mixed", "arr-open", "obj-open", "sib", "sibobj", "objtail"} {
 				for _, d := range []int{100000, 1000000, 10000000} {
+					if d == 10000000 && (sh == "sib" || sh == "sibobj" || sh == "objtail") {
+						continue
+					}
 					if d == 10000000 && astRec[e] && sh != "arr" && sh != "arr-open" {
 						continue // same fatal stack overflow, several GB of stack growth each: two shapes are enough
 					}
